@@ -302,7 +302,13 @@ func c17Case(r *obs.Run, i int) {
 	cased := rng.Intn(2) == 0
 	n := 1 + rng.Intn(24)
 	var pool []byte
-	switch rng.Intn(3) {
+	poolKind := rng.Intn(3)
+	if rng.Intn(20) == 0 { // large definitions, up to every one of the 128 ASCII values (fewer when case is folded)
+		n = []int{64, 100, 126, 127, 128}[rng.Intn(5)]
+		poolKind = 0
+		r.Count("large_definitions", 1)
+	}
+	switch poolKind {
 	case 0:
 		for c := 0; c < 128; c++ {
 			pool = append(pool, byte(c))
@@ -470,6 +476,48 @@ func c17Case(r *obs.Run, i int) {
 			a := def[rng.Intn(len(def))]
 			if x == 0 || alphabet.Letter(a) == gap || alphabet.Letter(a) == amb {
 				return
+			}
+			if rng.Intn(2) == 0 {
+				// ... or pairs two letters with each other that are both outside it (next to a pair inside it)
+				outside := func(c byte) bool {
+					lo, up := c, c
+					if isUpper(c) {
+						lo = c + 32
+					} else if isLower(c) {
+						up = c - 32
+					}
+					return bytes.IndexByte(def, c) < 0 && bytes.IndexByte(def, lo) < 0 && bytes.IndexByte(def, up) < 0 && alphabet.Letter(c) != gap && alphabet.Letter(c) != amb
+				}
+				var y byte
+				for tries := 0; tries < 200; tries++ {
+					y = byte(33 + rng.Intn(94))
+					if y != x && outside(y) && !(isUpper(x) && y == x+32) && !(isLower(x) && y == x-32) {
+						break
+					}
+					y = 0
+				}
+				if y == 0 {
+					return
+				}
+				b := def[rng.Intn(len(def))]
+				ps, pc := string([]byte{x, y}), string([]byte{y, x})
+				if b != a && alphabet.Letter(b) != gap && alphabet.Letter(b) != amb && !(cased == !alphabet.CaseSensitive && (a^b) == 32) {
+					ps, pc = string([]byte{a, b, x, y}), string([]byte{b, a, y, x})
+				}
+				w = c17w{"invalid", map[string]string{"letters": string(def), "pair_s": ps, "pair_c": pc}, nil, "NewComplementor with a pairing between two letters outside the alphabet"}
+				r.Note("inv6b/"+string(def)+"/"+ps, true)
+				pr, err := alphabet.NewPairing(ps, pc)
+				if err != nil {
+					r.Inconclusive("harness: NewPairing rejected the involution " + ps + "/" + pc + ": " + err.Error())
+					return
+				}
+				if comp, err := alphabet.NewComplementor(string(def), feat.DNA, pr, gap, amb, cased); err == nil {
+					cl, _ := comp.Complement(alphabet.Letter(x))
+					r.Violate("constructor-accepts-invalid", fmt.Sprintf("NewComplementor(%q) accepted the pairing %q/%q, which pairs %q with %q although neither is a letter of the alphabet (Complement(%q)=%q)", def, ps, pc, x, y, x, cl), w)
+					return
+				}
+				r.Count("pairings_between_outside_letters_refused", 1)
+				break
 			}
 			ps, pc := string([]byte{a, x}), string([]byte{x, a})
 			w = c17w{"invalid", map[string]string{"letters": string(def), "pair_s": ps, "pair_c": pc}, nil, "NewComplementor with a pairing that leaves the alphabet"}
